@@ -246,6 +246,7 @@ Lemma record_of_slots cthr txs r : record_of cthr txs = Some r -> r = map slot_o
 Proof.
   unfold record_of. destruct txs as [|t txs]; [cbn; discriminate|].
   destruct (negb _); [discriminate|]. destruct (has_dup_field _); [discriminate|].
+  destruct (negb _); [discriminate|].
   intros H. inversion H. split; [reflexivity | discriminate].
 Qed.
 
